@@ -562,6 +562,6 @@ def run(res, tier):
                        "final answers from the token TEXT with Python's ipaddress module")
     std.run_standard(res, PID, tier, area="aclip", build_impl=impl, gen_cases=gen_cases, oracle=oracle,
                      corr_name="AclipModel/SplayModel vs src/acl/Ip.cc, src/acl/SplayInserter.h, src/ip/Address.cc, include/splay.h",
-                     gens=[], n_quick=7000, n_thorough=150000, seed_salt=42, mutate=mutate,
+                     gens=[], n_quick=5000, n_thorough=150000, seed_salt=42, mutate=mutate,
                      kind_fn=kind_fn, nontrivial_fn=nontrivial, norm_impl=norm_impl, norm_model=norm_model,
                      impl_env=ENV)
